@@ -7,10 +7,12 @@
 // Modes
 //
 //	racireplay -cases cases.ndjson -out obs.ndjson [-budgetx 1] [-hex]
-//	    cases.ndjson lines:  {"id":7,"row":[size,head,[node...],valid,dsize,zeroes,fdafter,[chunk...]]}
+//	    cases.ndjson lines:  {"id":7,"row":[size,head,[node...],valid,dsize,zeroes,fdafter,[chunk...],family]}
 //	                    or:  {"id":7,"hex":"72c363...","claimed":123}
 //	    (row = one line exported by RacIndex.tla, see RowOf there; node =
 //	    [off,ar,ar2,ver,codec,cmax,dmg,[dptr],[ttag],[cptr],[clen],[stag]])
+//	racireplay -cgostress 8
+//	    reproduces the known finding "cgozlib-zstream-in-go-memory" (stress.go)
 //	racireplay -gen -seed 3 -n 500 -tier quick -out obs.ndjson [-only 4,9] [-budgetx 4] [-hex]
 //	    byte-level mutations / truncations / claimed-size lies of real files
 //	    written with rac.Writer + raczlib, and hand-built reference cycles
@@ -224,24 +226,24 @@ type readRec struct {
 }
 
 type runRec struct {
-	Term     bool        `json:"term"`
-	Panic    bool        `json:"panic"`
-	PanicMsg string      `json:"pmsg,omitempty"`
-	Budget   bool        `json:"budget"`
-	Cycle    bool        `json:"cycle"`
-	DsE      int         `json:"dse"` // 0 ok, 1 error
-	DsEOF    bool        `json:"dseof"` // the error returned by DecompressedSize is io.EOF itself
-	Ds       [2]int64    `json:"ds"`
-	WalkE    int         `json:"we"` // 0 ended with io.EOF, 1 error, 2 capped
-	Walk     [][]int64   `json:"walk"`
-	Seeks    [][]int64   `json:"seeks"` // [pos.hi,pos.lo,neg,e(0 chunk,1 EOF,2 error), chunk...]
-	Rz       readRec     `json:"rz"`
-	Rl       readRec     `json:"rl"`
-	MaxCalls int64       `json:"maxcalls"`
-	RCalls   int64       `json:"rcalls"`
-	ROps     int64       `json:"rops"`
-	Errs     []string    `json:"errs,omitempty"` // first error texts, diagnostics only
-	Phase    string      `json:"phase,omitempty"`
+	Term     bool      `json:"term"`
+	Panic    bool      `json:"panic"`
+	PanicMsg string    `json:"pmsg,omitempty"`
+	Budget   bool      `json:"budget"`
+	Cycle    bool      `json:"cycle"`
+	DsE      int       `json:"dse"`   // 0 ok, 1 error
+	DsEOF    bool      `json:"dseof"` // the error returned by DecompressedSize is io.EOF itself
+	Ds       [2]int64  `json:"ds"`
+	WalkE    int       `json:"we"` // 0 ended with io.EOF, 1 error, 2 capped
+	Walk     [][]int64 `json:"walk"`
+	Seeks    [][]int64 `json:"seeks"` // [pos.hi,pos.lo,neg,e(0 chunk,1 EOF,2 error), chunk...]
+	Rz       readRec   `json:"rz"`
+	Rl       readRec   `json:"rl"`
+	MaxCalls int64     `json:"maxcalls"`
+	RCalls   int64     `json:"rcalls"`
+	ROps     int64     `json:"rops"`
+	Errs     []string  `json:"errs,omitempty"` // first error texts, diagnostics only
+	Phase    string    `json:"phase,omitempty"`
 	calls    int64
 	nbytes   int64
 }
@@ -261,7 +263,7 @@ type obsLine struct {
 }
 
 const (
-	walkCap = 20000
+	walkCap = 4000 // chunks recorded per walk (a longer walk is cut: we = 2, prefix conditions only)
 	readCap = 1 << 20
 )
 
